@@ -11,7 +11,8 @@ RULE = ("every acyclic ADMG(n) and ancestral graph with undirected edges ANC(n) 
         "networkx.moral_graph; REPEAT stream (every n<=3 graph, a slice of the 4-node classes, half of the 150/1500 "
         "large-district graphs with 5-7 nodes, 25 % of the random graphs): object built for a neighbour graph with the same counts, "
         "observed once and discarded, edited in place to the target graph, then judged; afterwards the RETURNED moral graph is edited "
-        "(an edge and a node removed) and the call repeated, and a copy() of the input is observed too; custom edge-type names "
+        "(an edge and a node removed) and the call repeated, and a copy() of the input is observed too; the empty graph; a third of those graphs also as ADMG "
+        "instances and ancestral ones as PAG instances (moral graph only); custom edge-type names "
         "('dir','bidir','undir') passed explicitly to mixed_edge_moral_graph, _anterior, m_separated on a third of those and an eighth "
         "of the random graphs. distinct by (canonical graph, layers present, repeat seed, layer names); non-trivial = the moral graph has an edge that is "
         "not an edge of the input skeleton")
@@ -116,7 +117,7 @@ def und_chain_graph(rng, n):
 
 def gen_cases(tier, rng):
     nmax = 3 if tier == "quick" else 4
-    for n in range(1, nmax + 1):
+    for n in range(0, nmax + 1):       # n = 0: the empty graph
         for g in gr.enum_admg(n):
             yield from with_layers({"kind": "admg%d" % n, "g": g, "qs": queries(g["V"]), "oracle": True}, g)
         for g in gr.enum_anc(n):
@@ -155,6 +156,12 @@ def gen_cases(tier, rng):
                 yield c
                 if j % 3 == 0:
                     yield dict(c, kind="%s%d:names" % (nm, n), names=CUSTOM_NAMES, rep=None if j % 2 else c["rep"])
+                # object kinds: an ADMG instance; a PAG instance (extra empty circle layer; m_separated does not accept it,
+                # so only the moral graph is observed there)
+                if j % 3 == 1:
+                    yield dict(c, kind="%s%d:admg" % (nm, n), obj="admg", rep=None if j % 2 else c["rep"])
+                if j % 3 == 2 and nm == "anc":
+                    yield dict(c, kind="%s%d:pag" % (nm, n), obj="pag", qs=[], rep=None if j % 2 else c["rep"])
     # large districts with several parents (5-7 nodes)
     for i in range(150 if tier == "quick" else 1500):
         n = rng.randint(5, 7)
@@ -203,6 +210,10 @@ def build(g, case):
     """MixedEdgeGraph for g with the layers of case["layers"]; case["names"] = custom layer names
     [directed, bidirected, undirected], handed to the API explicitly"""
     names = case.get("names")
+    if case.get("obj") in ("admg", "pag"):
+        # an ADMG / PAG instance (with its extra, empty layers) where a MixedEdgeGraph is expected
+        M, lab, inv = (gr.to_admg if case["obj"] == "admg" else gr.to_pag)(g, case)
+        return M, lab, inv, {}, {}, {k: n for k, n in gr.LAYER_NAMES.items() if k in "DBU"}
     if not names:
         layers = tuple(case.get("layers", ALL_LAYERS))
         M, lab, inv = gr.to_mixed(g, case, layers=layers)
@@ -310,7 +321,8 @@ def nontrivial(case, model):
 
 
 def key(case):
-    return (gr.canon(case["g"]), tuple(case.get("layers", ALL_LAYERS)), case.get("rep"), tuple(case.get("names") or ()))
+    return (gr.canon(case["g"]), tuple(case.get("layers", ALL_LAYERS)), case.get("rep"), tuple(case.get("names") or ()),
+            case.get("obj"))
 
 
 def classify(case, impl, model):
